@@ -308,20 +308,25 @@ def _apply_ramp_op(batch: ImageBatch, op: str, rng: random.Random):
     if op == "resample":
         sp = batch.grid().spacing() * rng.uniform(0.7, 1.5)
         return batch.resample(sp), 0
+    if op in ("downsample", "upsample_neg") and min(size) < 4:
+        return batch, 0              # quantifier (C03/C04): levels with size / 2^levels >= 2
+    # down-sampling blurs with a truncated Gaussian (sigma 0.7355 per level -> radius 2 previous samples; two levels: 2 + 2*2):
+    # samples an earlier step extrapolated (their ones-channel stays 1) must not lie within that footprint. The hull test
+    # itself is not eroded: beyond the hull the blur pads with zeros, which the ones-channel carried through deepali sees.
     if op == "downsample":
-        return batch.downsample(1, align_corners=rng.choice([None, None, True, False])), 0
+        return batch.downsample(1, align_corners=rng.choice([None, None, True, False])), (0, 2)
     if op == "upsample":
         return batch.upsample(1, align_corners=rng.choice([None, None, True, False])), 0
     if op == "downsample_neg":      # negative levels delegate to the opposite operation
         return batch.downsample(-1, align_corners=rng.choice([None, None, True, False])), 0
     if op == "upsample_neg":
-        return batch.upsample(-1, align_corners=rng.choice([None, None, True, False])), 0
+        return batch.upsample(-1, align_corners=rng.choice([None, None, True, False])), (0, 2)
     if op == "pyramid":
         if min(size) < 8:            # quantifier: levels with size / 2^levels >= 2
             return batch, 0
         levels = 2
         pyr = batch.pyramid(levels)
-        return pyr[rng.choice(sorted(pyr))], 0
+        return pyr[rng.choice(sorted(pyr))], (0, 6)
     if op == "avg_pool":
         if min(size) < 4:
             return batch, 0
@@ -399,14 +404,15 @@ def check_ramp(c):
             pts = gn.points(Axes.WORLD, dtype=torch.float64)
             idx = gp.world_to_index(pts, decimals=None).double()
             n_prev = torch.tensor([float(v) for v in gp.size()], dtype=torch.float64)
-            inside = ((idx >= m - 1e-6) & (idx <= n_prev - 1 - m + 1e-6)).all(-1)
+            m_hull, m_pool = m if isinstance(m, tuple) else (m, m)
+            inside = ((idx >= m_hull - 1e-6) & (idx <= n_prev - 1 - m_hull + 1e-6)).all(-1)
             cube = gp.world_to_cube(pts, decimals=None, align_corners=True).double()
             vp = valid[i][None, None]
-            if m > 0:
-                # operations with a footprint (convolution): every sample within m previous samples must be valid
-                k = 2 * int(m) + 1
+            if m_pool > 0 and float(vp.min()) < 1.0:
+                # operations with a footprint (convolution, blur): every sample within m previous samples must be valid
+                k = 2 * int(m_pool) + 1
                 pool = F.max_pool2d if vp.ndim == 4 else F.max_pool3d
-                vp = -pool(F.pad(-vp, (int(m),) * (2 * (vp.ndim - 2)), value=0.0), kernel_size=k, stride=1)
+                vp = -pool(F.pad(-vp, (int(m_pool),) * (2 * (vp.ndim - 2)), value=-1.0), kernel_size=k, stride=1)
             v = F.grid_sample(vp, cube[None], mode="bilinear", padding_mode="zeros", align_corners=True)[0, 0]
             new_valid.append(((v > 1 - 1e-6) & inside).double())
         valid = new_valid
